@@ -193,6 +193,28 @@ def slice_sites(repo, scratch):
     return sites
 
 
+GLOBAL_PKGS = ["", "exec", "store", "parser", "node"]
+
+
+def global_write_sites(repo, scratch):
+    """writes to package-level state outside init() in the library packages (tools/globalfacts, go/ast)"""
+    here = os.path.dirname(os.path.abspath(__file__))
+    exe = os.path.join(scratch, "globalfacts")
+    env = dict(os.environ, GOFLAGS="-mod=mod", GOPROXY="off", GOSUMDB="off", GOTOOLCHAIN="local")
+    if not os.path.exists(exe):
+        subprocess.run(["go", "build", "-o", exe, "."], cwd=os.path.join(here, "globalfacts"), env=env, check=True,
+                       stdout=subprocess.PIPE, stderr=subprocess.STDOUT)
+    dirs = [os.path.join(repo, d) if d else repo for d in GLOBAL_PKGS]
+    dirs = [d for d in dirs if os.path.isdir(d)]
+    out = subprocess.run([exe] + dirs, stdout=subprocess.PIPE, stderr=subprocess.STDOUT, text=True, check=True).stdout
+    sites = []
+    for line in out.splitlines():
+        f = line.split()
+        if len(f) == 4:
+            sites.append((f[0] + " " + f[1], f[2] + " " + f[3]))
+    return len(dirs), sites
+
+
 def cli_facts(repo):
     """stdout write sites of the CLI worker and its flags"""
     src = strip_comments(read(os.path.join(repo, "xsel", "xsel.go")))
@@ -210,6 +232,7 @@ def gather(repo, scratch=None):
     extra = {}
     if scratch is not None:
         extra["slice_sites"] = slice_sites(repo, scratch)
+        extra["global_pkgs"], extra["global_write_sites"] = global_write_sites(repo, scratch)
     extra["cli"] = cli_facts(repo)
     return dict(extra, **{
         "g_text": grammar_from_text(repo),
@@ -242,6 +265,8 @@ def write_facts(facts, path, extra=""):
         f.write("Definition recover_sites : nat := %d.\n" % facts["recover_sites"])
         f.write("Definition slice_sites : list (string * string * bool) :=\n %s.\n" % clist(
             ["(%s, %s, %s)" % (cstr(a), cstr(b), "true" if c else "false") for a, b, c in facts.get("slice_sites", [])]))
+        f.write("Definition global_pkgs : nat := %d.\nDefinition global_write_sites : list (string * string) :=\n %s.\n" % (
+            facts.get("global_pkgs", 0), clist(["(%s, %s)" % (cstr(a), cstr(b)) for a, b in facts.get("global_write_sites", [])])))
         f.write("Definition cli_worker_stdout_writes : nat := %d.\nDefinition cli_other_stdout_writes : nat := %d.\n" % (
             facts["cli"]["worker_stdout_writes"], facts["cli"]["other_stdout_writes"]))
         f.write("Definition cli_flags : list string :=\n %s.\n" % clist([cstr(x) for x in facts["cli"]["flags"]]))
@@ -264,8 +289,10 @@ CHECKS = {
             ("core_library_registered", "check_builtins builtins xpath_core_library")],
     "C10": [("store_is_a_loop", "Nat.eqb store_self_calls 0")],
     "C12": [("node_functions_registered", "check_builtins builtins [\"name\"; \"local-name\"; \"namespace-uri\"; \"count\"; \"lang\"]")],
-    "C13": [("every_append_and_sort_site_is_fresh", "check_slice_discipline slice_sites")],
+    "C13": [("every_append_and_sort_site_is_fresh", "check_slice_discipline slice_sites"),
+            ("no_package_level_state_is_written", "check_no_global_writes global_pkgs global_write_sites")],
     "C14": [("every_append_and_sort_site_is_fresh", "check_slice_discipline slice_sites"),
+            ("no_package_level_state_is_written", "check_no_global_writes global_pkgs global_write_sites"),
             ("one_stdout_write_per_file", "Nat.eqb cli_worker_stdout_writes 1 && Nat.eqb cli_other_stdout_writes 0")],
     "C15": [("binary_handlers_have_two_children", "check_two_children g_slots handlers"),
             ("exec_recovers", "Nat.eqb recover_sites 1")],
